@@ -103,7 +103,11 @@ def via_solver(ctx, st, ws, backend, bname, build, desc, mode, keyidx):
             ks = [keys_pool[i] for i in keyidx if i < len(keys_pool)]
             if ks:
                 s.add_answer_key(ks)
-            s.solve(backend=backend)
+            ws.expect_key_names = {mwire.name_of(v) for v in ks}
+            try:
+                s.solve(backend=backend)
+            finally:
+                ws.expect_key_names = None
     except OverflowError:
         ctx.inconc("stand-in overflow", ctx.current_case)
         return
